@@ -66,7 +66,9 @@ fn table() -> Vec<(&'static str, Vec<&'static str>, Vec<(&'static str, Vec<&'sta
             vec!["--runtime=native-aot", "--generate-stub"],
             vec![],
         ),
-        ("go", vec!["--generate-stubs"], vec![]),
+        // `--format=false`: the default `--format` only tries to spawn `gofmt` (not installed
+        // here) several times per generation and falls back to the unformatted text.
+        ("go", vec!["--generate-stubs", "--format=false"], vec![]),
         (
             "moonbit",
             vec![
